@@ -33,6 +33,10 @@ def analyse(repo, fn):
         if r.mode != "reduced":
             out.append((tag, VIOLATED, f"QR mode is {r.mode!r}, not 'reduced' (Q would not be L x (p+1))", fn.lineno)); continue
         Vm = r.V
+        if isinstance(Vm, LocalArr):
+            # a preallocated matrix filled column by column
+            from .values import local_to_arr
+            Vm = local_to_arr(Vm, st)
         if not isinstance(Vm, Arr) or Vm.ndim != 2:
             out.append((tag, UNKNOWN, "Vandermonde matrix not recognised", fn.lineno)); continue
         (nv, nc), (kv, kc) = Vm.axes
